@@ -62,6 +62,8 @@ PROPS = {
     "C04": {"engines": [
         {"name": "views", "pkg": "speaker", "run": "^TestVerifC04Views$",
          "checks": {Q: 30000, T: 3200000}, "shards": {Q: 2, T: 16}},
+        {"name": "exhaustive-views", "pkg": "speaker", "run": "^TestVerifC04Exhaustive$", "rapid": False,
+         "checks": {Q: 1, T: 1}, "shards": {Q: 4, T: 16}},
     ]},
     "C10": {"engines": [
         {"name": "views", "pkg": "speaker", "run": "^TestVerifC10Views$",
